@@ -342,34 +342,35 @@ func ruleInputStream(c *Ctx, p *core.Program, roles *doRoles, prefix string) {
 	rule = prefix+".final"
 	c.R.Rule(rule, "in the sender goroutine the input streamer's success is followed by flush on every path to a success exit, and both errors are honoured")
 	var si []ssa.Instruction
-	for _, call := range core.Calls(roles.Sender) {
+	senderFn := bodyOf(roles.Sender)
+	for _, call := range core.Calls(senderFn) {
 		if sf := core.StaticFn(call); sf == streamer {
 			si = append(si, call.(ssa.Instruction))
 		}
 	}
 	if len(si) != 1 {
-		c.R.Unk(rule, core.FuncName(roles.Sender), cfg, p.Pos(roles.Sender.Pos()), sprintf("%d calls of the input streamer in the sender", len(si)))
+		c.R.Unk(rule, core.FuncName(senderFn), cfg, p.Pos(senderFn.Pos()), sprintf("%d calls of the input streamer in the sender", len(si)))
 	} else {
 		succS := func(in ssa.Instruction) bool {
 			r, ok := in.(*ssa.Return)
 			if !ok {
 				return false
 			}
-			rv := core.ReturnErr(roles.Sender, r)
+			rv := core.ReturnErr(senderFn, r)
 			return rv != nil && core.MayBeNilError(rv, 0)
 		}
 		w := core.ReachAvoiding(core.PointOf(si[0]), succS, func(in ssa.Instruction) bool {
 			return core.IsCallOf(in, isClientMethod("flush"))
 		}, nil)
 		if len(w) > 0 {
-			c.R.Bad(rule, core.FuncName(roles.Sender), cfg, p.Pos(w[0].At.Pos()), "the sender can finish successfully without flushing the last blocks")
+			c.R.Bad(rule, core.FuncName(senderFn), cfg, p.Pos(w[0].At.Pos()), "the sender can finish successfully without flushing the last blocks")
 		} else {
-			c.R.Ok(rule, core.FuncName(roles.Sender), cfg, p.Pos(si[0].Pos()), "flush follows sendInput on every success path")
+			c.R.Ok(rule, core.FuncName(senderFn), cfg, p.Pos(si[0].Pos()), "flush follows sendInput on every success path")
 		}
 		scls := func(fn *ssa.Function, call ssa.CallInstruction) bool {
 			f := core.CalleeFunc(call)
 			return f != nil && (core.IsMethod(f, core.PkgCh, "Client", "flush") || core.IsMethod(f, core.PkgCh, "Client", "sendQuery") || core.StaticFn(call) == streamer)
 		}
-		runErrDisc(c, p, []*ssa.Function{roles.Sender}, errDiscOpts{Rule: rule, Class: scls})
+		runErrDisc(c, p, []*ssa.Function{senderFn}, errDiscOpts{Rule: rule, Class: scls})
 	}
 }
